@@ -23,7 +23,7 @@ Fixpoint numbered (vals : list UmlBlob.pv) (n : nat) : list (string * UmlBlob.pv
 (* items that write what they say: no free text, no scalar property with an empty value *)
 Definition item_simple (it : witem) : bool :=
   match it with
-  | IField _ _ v => negb (String.eqb (unq v) "")
+  | IField _ _ v => negb (String.eqb (py_strip (remove_char "," (unq v))) "")
   | IRaw _ | IInert _ => false
   | _ => true
   end.
